@@ -1,16 +1,43 @@
-import LhasaV.Model.Header
-import LhasaV.Spec.Integrity
+import LhasaV.Lemmas.HeaderSound
 /-!
 # C12 — headers failing their own checksum, CRC or length rules are never returned
+
+`Spec.Integrity.ok` is the independently written integrity predicate (level ≤ 3, level
+minimum lengths, byte-sum checksum, extended-header chain rules, common CRC). The theorems
+are about `Header.read`, the model of `lha_file_header_read`, for EVERY input byte string.
 -/
 namespace LhasaV.Props.C12
 open LhasaV
 
-/-- Input shorter than the common 22-byte prefix never satisfies the integrity predicate … -/
-theorem short_input_not_ok (inp : Bytes) (h : inp.length < 22) : Spec.Integrity.ok inp = false := by
-  simp [Spec.Integrity.ok, h]
+/-- Acceptance soundness: whatever the parser returns satisfies the integrity rules. -/
+theorem accept_sound (mk : Nat → Nat) (inp : Bytes) (h : Header.Hdr) (rest : Bytes)
+    (hr : Header.read mk inp = .ok (h, rest)) : Spec.Integrity.ok inp = true :=
+  Header.accept_sound mk inp h rest hr
 
-/-- … and is never accepted by the parser. -/
+/-- Contrapositive, as the property states it: a header that fails its own rules is not returned. -/
+theorem bad_header_not_returned (mk : Nat → Nat) (inp : Bytes) (hbad : Spec.Integrity.ok inp = false) :
+    ∀ h rest, Header.read mk inp ≠ .ok (h, rest) := by
+  intro h rest hr
+  have := Header.accept_sound mk inp h rest hr
+  simp [hbad] at this
+
+/-- A file entry has a name, a directory entry a path (or is a symlink with target and name);
+the level is at most 3. -/
+theorem accept_has_name (mk : Nat → Nat) (inp : Bytes) (h : Header.Hdr) (rest : Bytes)
+    (hr : Header.read mk inp = .ok (h, rest)) :
+    (h.method ≠ "-lhd-".toUTF8.toList → h.filename ≠ none) ∧
+    (h.method = "-lhd-".toUTF8.toList →
+      h.path ≠ none ∨ (h.symlinkTarget ≠ none ∧ h.filename ≠ none)) ∧
+    h.level ≤ 3 :=
+  Header.accept_has_name mk inp h rest hr
+
+/-- The member's data is found immediately after the header: exactly `raw.length` bytes are consumed. -/
+theorem read_consumes (mk : Nat → Nat) (inp : Bytes) (h : Header.Hdr) (rest : Bytes)
+    (hr : Header.read mk inp = .ok (h, rest)) :
+    (∃ k, k = h.raw.length ∧ rest = inp.drop k ∧ k ≤ inp.length) ∧ h.raw.length ≥ 22 :=
+  Header.read_consumes mk inp h rest hr
+
+/-- Input shorter than the common 22-byte prefix is never accepted. -/
 theorem short_input_rejected (mk : Nat → Nat) (inp : Bytes) (h : inp.length < 22) :
     Header.read mk inp = .fail := by
   have : Header.extend {} inp Gen.commonHeaderLen = .fail := by
